@@ -394,7 +394,10 @@ pub fn secp_tasks(t: &mut Tasks, al: &Arc<Alpha<Secp>>) {
         }
         out.eval("from_xy:(0,0)", true);
         if let Ok(Some(q)) = catch(|| mc::k256::K256Affine::from_xy(crate::k_fe_fp(&f.zero()), crate::k_fe_fp(&f.zero()))) {
-            v(&mut out, ty, "from_xy", "accepts-(0,0)", "from_xy(0,0) succeeds".into(), json!({"got": crate::k_a_m(&q).json()}));
+            // (0,0) is the library's encoding of the identity (see ext.rs)
+            if crate::k_a_m(&q) != crate::model::MP::Inf {
+                v(&mut out, ty, "from_xy", "(0,0)-gives-non-identity", "from_xy(0,0) returns a point other than the identity".into(), json!({"got": crate::k_a_m(&q).json()}));
+            }
         }
         out
     });
